@@ -261,8 +261,10 @@ def step (st : State) (line : String) : State × String :=
     | _, _, _ => bad
   | "xload" :: be :: doc =>
     -- hwloc_topology_diff_load_xmlbuffer on a document given by its tokens
+    -- (the nolibxml importer reads the attributes from the text: the tokens go through the byte-level render / scan models first)
     match parseBackend be, parseDoc doc with
-    | some be, some d => (st, showLoaded (Hw.XmlDiff.importDoc be d))
+    | some .nolibxml, some d => (st, showLoaded (Hw.XmlDiff.importDoc .nolibxml (Hw.XmlDiff.rescan d)))
+    | some .libxml, some d => (st, showLoaded (Hw.XmlDiff.importDoc .libxml d))
     | _, _ => bad
   | _ => bad
 
